@@ -4,9 +4,7 @@
 From Anydb Require Import Common.Base Common.LE Gen.Consts Gen.Sizes Codec.Vecdb
   Vec.CvRegion Vec.CvPages Vec.CvModel Vec.CvInv Vec.CvInst Vec.CvInstProofs.
 
-(* one step: the refinement relation R (concrete state vs reference vector {cur, stamp, saved, saved_stamp}:
-   same contents, same stamp; `saved` = what a re-import returns) is preserved by every operation,
-   which returns Ok (or panics on the 1 TiB region limit) *)
+(* one step: the refinement relation R (concrete state vs reference vector {cur, stamp, saved, saved_stamp}) is preserved by every operation, which returns Ok (or panics on the 1 TiB region limit) *)
 Theorem C03_refines_comp_step :
   forall (T : Type) (size : N) (enc : T -> list N) (dec : list N -> T)
          (compress : N -> list T -> list cell) (decompress : list cell -> N -> option (list T))
@@ -26,7 +24,7 @@ Theorem C03_refines_comp_step :
 Proof. exact step_R. Qed.
 Print Assumptions C03_refines_comp_step.
 
-(* all histories (push, truncate, write, flush, stamped write, reset, re-import at any point) *)
+(* all histories (push, truncate, write, flush, stamped write / commit at any retention, reset, re-import at any point) *)
 Theorem C03_refines_comp :
   forall (T : Type) (size : N) (enc : T -> list N) (dec : list N -> T)
          (compress : N -> list T -> list cell) (decompress : list cell -> N -> option (list T))
@@ -46,3 +44,21 @@ Theorem C03_refines_comp :
          (spec_run T a h) /\ steps_ok T size enc dec compress decompress fmt vver s h.
 Proof. exact run_R. Qed.
 Print Assumptions C03_refines_comp.
+
+(* the refinement is about what a read returns *)
+Theorem C03_comp_reads :
+  forall (T : Type) (size : N) (enc : T -> list N) (dec : list N -> T)
+         (compress : N -> list T -> list cell) (decompress : list cell -> N -> option (list T))
+         (fmt vver : N),
+       0 < size ->
+       size <= MAX_UNCOMPRESSED_PAGE_SIZE ->
+       (forall t : T, len (enc t) = size) ->
+       (forall t : T, dec (enc t) = t) ->
+       (forall (k : N) (l : list T), decompress (compress k l) (len l) = Some l) ->
+       (forall (k : N) (l : list T), len l <= MAX_UNCOMPRESSED_PAGE_SIZE / size -> len (compress k l) < two32) ->
+       vver < two32 ->
+       forall (s : cvs T) (a : spec T),
+       R T size enc compress fmt vver s a -> cv_collect T size dec decompress s = Ok (a_cur T a).
+Proof. exact R_collect. Qed.
+Print Assumptions C03_comp_reads.
+
